@@ -56,7 +56,7 @@ func TestVerifC14Writer(t *testing.T) {
 			lw := persistence.NewLazyAOFWriterWithConfig(base, time.Duration(cs.R.Range(1, 200))*time.Millisecond, time.Second, vkit.Pick(cs.R, []int{1, 8, 1000}))
 			nw := cs.R.Range(1, 8)
 			per := cs.R.Range(5, ctx.N(200, 1500))
-			mode := vkit.Pick(cs.R, []string{"flush", "sync", "close", "snapshot", "flush_many"})
+			mode := vkit.Pick(cs.R, []string{"flush", "sync", "close", "snapshot", "flush_many", "snapshot_close"})
 			cs.Op("writers=%d per=%d mode=%s", nw, per, mode)
 			var clock atomic.Int64 // logical time: one tick per acknowledged write / control call
 			acked := make([][]int64, nw)
@@ -106,8 +106,9 @@ func TestVerifC14Writer(t *testing.T) {
 					cerr = lw.Sync()
 				case "close":
 					cerr = lw.Close()
-				case "snapshot":
+				case "snapshot", "snapshot_close":
 					cerr = lw.BeginSnapshotMode()
+					k = "snapshot"
 				}
 				if cerr != nil {
 					cs.Fail("%s returned error: %v", k, cerr)
@@ -133,9 +134,23 @@ func TestVerifC14Writer(t *testing.T) {
 				shadow = sh
 				ctls = append(ctls, ctl{kind: "end_snapshot", issued: endIssued})
 			}
+			closeIssued := int64(0)
+			if mode == "snapshot_close" {
+				// shutdown while snapshot mode is on (the snapshot / compaction that switched it
+				// on never gets to end it): Close persists every write acknowledged before it,
+				// those made during snapshot mode included
+				for i := 0; i < cs.R.Range(0, 3000); i++ {
+					_ = clock.Load()
+				}
+				closeIssued = clock.Add(1)
+				if err := lw.Close(); err != nil {
+					cs.Fail("Close in snapshot mode: %v", err)
+				}
+				ctx.Count("control.close_in_snapshot_mode", 1)
+			}
 			close(stop)
 			wg.Wait()
-			if mode != "close" {
+			if mode != "close" && mode != "snapshot_close" {
 				lw.Close()
 			}
 			final, _ := c14ReadKeys(path)
@@ -172,6 +187,10 @@ func TestVerifC14Writer(t *testing.T) {
 						}
 						if a < begin && shadowKeys[key] && !ctls[0].keys[key] {
 							cs.Fail("write %s acknowledged before BeginSnapshotMode drifted into the shadow buffer", key)
+						}
+					} else if mode == "snapshot_close" {
+						if a < closeIssued && !final[key] {
+							cs.Fail("write %s acknowledged (tick %d) before Close (tick %d, issued while snapshot mode was on) is not in the file", key, a, closeIssued)
 						}
 					} else if !final[key] && mode != "close" {
 						cs.Fail("write %s acknowledged (tick %d) before the final Close is not in the file", key, a)
